@@ -367,14 +367,64 @@ pub fn oracle(line: &str) -> String {
         }
         "rawproto.import" => {
             let pl = match p_plib(&p[1]) { Some(x) => x, None => return "na".into() };
-            match std::panic::catch_unwind(std::panic::AssertUnwindSafe(|| raw::Library::from_proto(pl, None))) {
+            match std::panic::catch_unwind(std::panic::AssertUnwindSafe(|| raw::Library::from_proto(pl.clone(), None))) {
                 Err(_) => "fail import panicked".into(),
-                Ok(Ok(b)) => { break_cycles(&b); "pass".into() }
+                Ok(Ok(b)) => {
+                    // "a protobuf library whose cells are listed before their users converts to raw and back to an equal
+                    // message": equal up to the grouping of shapes by layer (the exporter emits one group per layer pair)
+                    let again = std::panic::catch_unwind(std::panic::AssertUnwindSafe(|| b.to_proto()));
+                    break_cycles(&b);
+                    match again {
+                        Err(_) => "fail re-export of an imported message panicked".into(),
+                        Ok(Err(e)) => format!("fail an imported message does not convert back: {}", format!("{:?}", e).chars().take(120).collect::<String>()),
+                        Ok(Ok(p2)) => {
+                            let (n1, n2) = (norm_plib(&pl), norm_plib(&p2));
+                            if n1 == n2 { "pass".into() } else {
+                                let k = n1.iter().zip(n2.iter()).position(|(x, y)| x != y).unwrap_or(n1.len().min(n2.len()));
+                                format!("fail proto→raw→proto changed the message: {} vs {}", n1.get(k).cloned().unwrap_or_default().chars().take(160).collect::<String>(), n2.get(k).cloned().unwrap_or_default().chars().take(160).collect::<String>())
+                            }
+                        }
+                    }
+                }
                 Ok(Err(_)) => "pass".into(),
             }
         }
         _ => "na".into(),
     }
+}
+/// a message up to the grouping of shapes: per cell the instance and annotation sequences, and per view the sorted
+/// multiset of (layer pair, shape) entries
+fn norm_plib(p: &proto::Library) -> Vec<String> {
+    fn shapes(groups: &[proto::LayerShapes]) -> Vec<String> {
+        let mut v = vec![];
+        for g in groups {
+            let gs = ls_s(g);
+            let gv = gs.list().unwrap();
+            let layer = gv[1].to_string();
+            for part in &gv[2..] { for item in &part.list().unwrap()[1..] { v.push(format!("{} {}", layer, item.to_string())); } }
+        }
+        v.sort();
+        v
+    }
+    let full = plib_s(p);
+    let fv = full.list().unwrap();
+    let mut out = vec![format!("lib {} {}", fv[1].to_string(), fv[2].to_string())];
+    for (c, cs) in p.cells.iter().zip(fv[3..].iter()) {
+        out.push(format!("cell {}", String::from_utf8_lossy(c.name.as_bytes())));
+        let cv = cs.list().unwrap();
+        if let Some(ly) = &c.layout {
+            let lv = cv[2].list().unwrap();
+            out.push(format!("layout {} {} {}", lv[1].to_string(), lv[2].to_string(), lv[4].to_string()));
+            out.push(format!("shapes {}", shapes(&ly.shapes).join(" ")));
+        } else { out.push("no-layout".into()); }
+        if let Some(ab) = &c.r#abstract {
+            let av = cv[3].list().unwrap();
+            out.push(format!("abstract {} {}", av[1].to_string(), av[2].to_string()));
+            for pt in &ab.ports { out.push(format!("port {} {}", String::from_utf8_lossy(pt.net.as_bytes()), shapes(&pt.shapes).join(" "))); }
+            out.push(format!("blockages {}", shapes(&ab.blockages).join(" ")));
+        } else { out.push("no-abstract".into()); }
+    }
+    out
 }
 /// cyclic instance graph, or an abstract layer without the purpose export needs
 pub fn has_cycle_or_missing(s: &Sexp) -> bool {
@@ -444,7 +494,15 @@ pub fn gen_rlib(rng: &mut Rng, cyclic: bool) -> String {
     }
     format!("(rlib {} {} (layers {}) {})", of_bytes(b"lib"), if rng.chance(1, 12) { 3 } else { rng.below(3) }, layer_rows.join(" "), cells.join(" "))
 }
+/// pinned: abstracts of one library using two purpose numbers for one role (blockage / port) on one layer
+pub const PINNED_PURPOSE_CONFLICTS: &[&str] = &[
+    "rawproto.import (plib x6c6962 0 (pcell x6330 #f (pabs x6330 (pp x (0 0) (10 0) (10 10) (0 10)) (ports) (blockages (ls (2 101) (rects (pr x (0 0) 4 4)) (polys) (paths))))) (pcell x6331 #f (pabs x6331 (pp x (0 0) (10 0) (10 10) (0 10)) (ports) (blockages (ls (2 100) (rects (pr x (1 1) 2 2)) (polys) (paths))))))",
+    "rawproto.import (plib x6c6962 0 (pcell x6330 #f (pabs x6330 (pp x (0 0) (10 0) (10 10) (0 10)) (ports (pport x70 (ls (2 100) (rects (pr x (0 0) 4 4)) (polys) (paths)))) (blockages))) (pcell x6331 #f (pabs x6331 (pp x (0 0) (10 0) (10 10) (0 10)) (ports (pport x70 (ls (2 7) (rects (pr x (1 1) 2 2)) (polys) (paths)))) (blockages))))",
+    // control: port and blockage sharing ONE number on a layer converts back unchanged
+    "rawproto.import (plib x6c6962 0 (pcell x6330 #f (pabs x6330 (pp x (0 0) (10 0) (10 10) (0 10)) (ports (pport x70 (ls (2 100) (rects (pr x (0 0) 4 4)) (polys) (paths)))) (blockages (ls (2 100) (rects (pr x (1 1) 2 2)) (polys) (paths))))))",
+];
 pub fn gen(thorough: bool, rng: &mut Rng, out: &mut Vec<String>) {
+    for l in PINNED_PURPOSE_CONFLICTS { out.push(l.to_string()); }
     let n = if thorough { 40000 } else { 4000 };
     for i in 0..n {
         let r = gen_rlib(rng, i % 11 == 3);
@@ -455,6 +513,7 @@ pub fn gen(thorough: bool, rng: &mut Rng, out: &mut Vec<String>) {
                 if let Ok(pl) = lib.to_proto() {
                     out.push(format!("rawproto.import {}", plib_s(&pl)));
                     let mut variants: Vec<proto::Library> = vec![];
+                    let mut variants2: Vec<proto::Library> = vec![];
                     let mut p2 = pl.clone(); p2.cells.reverse(); variants.push(p2);
                     let mut p3 = pl.clone(); p3.units = [3, -1, 7][rng.below(3) as usize]; variants.push(p3);
                     for ci in 0..pl.cells.len() {
@@ -469,7 +528,27 @@ pub fn gen(thorough: bool, rng: &mut Rng, out: &mut Vec<String>) {
                             let _ = ab; variants.push(q);
                         }
                     }
+                    // purpose numbers shared between views: a layout shape on the (layer, purpose) pair an abstract's port or
+                    // blockage uses (in the same cell, an earlier or a later one), ports and blockages on one pair
+                    {
+                        let pairs: Vec<proto::Layer> = pl.cells.iter().filter_map(|c| c.r#abstract.as_ref()).flat_map(|a| a.ports.iter().flat_map(|p| p.shapes.iter()).chain(a.blockages.iter()).filter_map(|s| s.layer.clone())).collect();
+                        if !pairs.is_empty() {
+                            let pick = pairs[rng.below(pairs.len() as u64) as usize].clone();
+                            let mut q = pl.clone();
+                            let mut hit = false;
+                            for c in q.cells.iter_mut() { if let Some(ly) = c.layout.as_mut() { for sh in ly.shapes.iter_mut() { if !hit || rng.coin() { if sh.layer.as_ref().map(|l| l.number) == Some(pick.number) || rng.chance(1, 3) { sh.layer = Some(pick.clone()); hit = true; } } } } }
+                            if hit { variants2.push(q); }
+                            // every blockage of the library on the purpose number the ports use (one number per role and layer
+                            // throughout: two numbers for one role on one layer is the pinned known finding c14-abstract-purpose-*)
+                            let pp: Option<i64> = pl.cells.iter().filter_map(|c| c.r#abstract.as_ref()).flat_map(|a| a.ports.iter().flat_map(|p| p.shapes.iter())).filter_map(|s| s.layer.as_ref().map(|l| l.purpose)).next();
+                            let mut q = pl.clone();
+                            let mut hit = false;
+                            if let Some(pp) = pp { for c in q.cells.iter_mut() { if let Some(a) = c.r#abstract.as_mut() { for b in a.blockages.iter_mut() { if let Some(l) = b.layer.as_mut() { l.purpose = pp; hit = true; } } } } }
+                            if hit { variants2.push(q); }
+                        }
+                    }
                     for v in variants { out.push(format!("rawproto.import {}", plib_s(&v))); }
+                    for v in variants2 { out.push(format!("rawproto.import {}", plib_s(&v))); }
                 }
                 break_cycles(&lib);
             }
